@@ -3,7 +3,6 @@ package input
 import (
 	"bufio"
 	"bytes"
-	"io"
 	"sync"
 	"time"
 
@@ -117,18 +116,14 @@ func (a *Amqp) consumeAMQP() {
 		select {
 		case m := <-a.delivery:
 			// note that we don't support lines longer than 4096B. that seems very reasonable..
-			r := bufio.NewReaderSize(bytes.NewReader(m.Body), 4096)
-			for {
-				buf, _, err := r.ReadLine()
-
-				if err != nil {
-					if io.EOF != err {
-						log.Error(err.Error())
-					}
-					break
-				}
-
-				a.dispatcher.Dispatch(buf)
+			// lines are split exactly like on the plain-text tcp/udp listener
+			scanner := bufio.NewScanner(bytes.NewReader(m.Body))
+			scanner.Buffer(make([]byte, 0, 4098), 4098)
+			for scanner.Scan() {
+				a.dispatcher.Dispatch(scanner.Bytes())
+			}
+			if err := scanner.Err(); err != nil {
+				log.Error(err.Error())
 			}
 		case <-a.shutdown:
 			return
